@@ -382,6 +382,10 @@ def run(chk, repo):
     chk.decide(ok, "C09.order", Wb, short(pa[0]) if pa else "process missing",
                why="stages must be applied left to right to the running data", node=bg)
     wi = [s for s in bb if isinstance(s, ast.If) and unparse(s.test) == "wnd is None"]
+    if len(wi) > 1:
+        # the test may also guard the preparation of the window; the emitting one is what is read here
+        wi = [s for s in wi if any(isinstance(n_, (ast.Yield, ast.YieldFrom)) for n_ in ast.walk(s))
+              or (isinstance(s.body[-1], ast.Return) and s.body[-1].value is None)]
     chk.require(len(wi) == 1, "blk_gen: 'if wnd is None' not found")
     nowin, win = wi[0].body, wi[0].orelse
     if not win and nowin and isinstance(nowin[-1], ast.Return) and nowin[-1].value is None:
@@ -431,9 +435,11 @@ def run(chk, repo):
     chk.decide(ok, "C09.order", Wb, "window: " + (" ; ".join(unparse(s) for s in l1[0].body) if l1 else "?"),
                why="the block must be multiplied by the analysis window (operator.mul, element by element) before any "
                    "user stage sees it", node=bg)
-    wl = [n for n in ast.walk(bg) if isinstance(n, ast.If) and unparse(n.test) == "len(wnd) != size"]
+    wl = [n for n in ast.walk(bg) if isinstance(n, ast.If) and any(unparse(c_) in ("len(wnd) != size", "size != len(wnd)")
+                                                                   for c_ in ast.walk(n.test))]
     chk.decide(len(wl) == 1 and "ValueError" in unparse(wl[0].body[0]), "C09.order", Wb, "window length checked against size",
-               why="a window of another length would silently truncate the blocks", node=bg)
+               why="a window of another length would silently truncate the blocks (which windows are refused: C09.dispatch)",
+               node=bg)
     _dispatch(chk, repo, mod, W, wr, bg)
 
 
@@ -447,10 +453,10 @@ def _dispatch(chk, repo, mod, W, wr, bg):
                              "documented ones, whatever the order and spelling of the tests")
     n_tab = 0
     WK = {"None": None, "callable": {"function"}, "list": {"list", "Sequence", "Iterable"}, "Stream": {"Stream", "Iterable"},
-          "number": {"float"}}
+          "number": {"float"}, "callable container": {"Iterable", "Mapping", "dict"}}
 
     def wnd_facts(wk, extra_truths=None, **kw):
-        tr = {"callable(wnd)": wk in ("callable", "Stream")}
+        tr = {"callable(wnd)": wk in ("callable", "Stream", "callable container")}
         tr.update(extra_truths or {})
         return Facts(kinds={} if wk == "None" else {"wnd": WK[wk]}, none=["wnd"] if wk == "None" else [], truths=tr,
                      types={"Stream", "Iterable", "Sequence"}, **kw)
@@ -467,6 +473,9 @@ def _dispatch(chk, repo, mod, W, wr, bg):
                 F_.kinds["wnd"] = {"list", "Sequence", "Iterable", "ndarray"}
                 F_.truths["callable(wnd)"] = False
                 F_.lens["wnd"] = 4
+            elif tx == "None":
+                F_.none.add("wnd")
+                F_.truths["callable(wnd)"] = False
 
     def sec_ola():
         nonlocal n_tab
@@ -479,14 +488,14 @@ def _dispatch(chk, repo, mod, W, wr, bg):
             stop = [i for i, st in enumerate(body) if isinstance(st, ast.If) and unparse(st.test) in ("normalize", "not normalize")]
             chk.require(stop and stop[0] > start[0], "overlap_add.%s: normalisation block not found" % sname)
             res = body[start[0] + 1:stop[0]]
-            for wk in ("None", "callable", "list", "Stream", "number"):
+            for wk in ("None", "callable", "callable container", "list", "Stream", "number"):
                 w = walk(res, wnd_facts(wk), "overlap_add.%s window" % sname, rebind=wnd_rebind)
                 n_tab += 1
                 t = w.texts()
                 called = "wnd = wnd(size)" in t
                 if sname == "list":
                     conv = [x for x in t if x == "wnd = list(wnd)"]
-                    want_conv = wk in ("callable", "list", "Stream")
+                    want_conv = wk in ("callable", "callable container", "list", "Stream")
                     unit = False
                     want_unit = False
                 else:
@@ -499,11 +508,12 @@ def _dispatch(chk, repo, mod, W, wr, bg):
                 if wk == "number":
                     ok = w.end == "raise" and w.last is not None and "TypeError" in unparse(w.last) and not called
                 else:
-                    ok = w.end == "fall" and called == (wk == "callable") and (len(conv) == 1) == bool(want_conv) and unit == want_unit
+                    ok = w.end == "fall" and called == (wk in ("callable", "callable container")) and (len(conv) == 1) == bool(want_conv) and unit == want_unit
                     if ok and called:
                         ok = t.index("wnd = wnd(size)") < t.index(conv[0])
                 chk.decide(ok, "C09.dispatch", W("overlap_add[%s]" % sname), "wnd=<%s>: %s" % (wk, "; ".join(t)[:110] or "left as it is"),
-                           why="None -> no window (ones); a callable that is not a Stream is called with size; lists, Streams "
+                           why="None -> no window (ones); a callable that is not a Stream (a function, or a callable container such as the "
+                               "window StrategyDict) is called with size; lists, Streams "
                                "and call results are materialised; anything else is a TypeError", node=fn)
             # normalisation and application (list strategy: explicit arms)
             if sname == "list":
@@ -572,11 +582,12 @@ def _dispatch(chk, repo, mod, W, wr, bg):
     def sec_blkgen():
         nonlocal n_tab
         body = docstring_free(bg.body)
-        lo = [i for i, st in enumerate(body) if isinstance(st, ast.If) and "callable(wnd)" in unparse(st.test)]
+        # from the first statement that looks at the window (after the numpy defaults) to the padded transforms
+        lo = [i for i, st in enumerate(body) if any(isinstance(n_, ast.Name) and n_.id == "wnd" for n_ in ast.walk(st))]
         hi = [i for i, st in enumerate(body) if isinstance(st, ast.Assign) and unparse(st.targets[0]) == "trans"]
         chk.require(lo and hi and lo[0] < hi[0], "blk_gen: window resolution not found")
         res = body[lo[0]:hi[0]]
-        for wk in ("None", "callable", "list", "Stream", "number"):
+        for wk in ("None", "callable", "callable container", "list", "Stream", "number"):
             for fits in (True, False):
                 F = wnd_facts(wk, lens={"wnd": 4} if wk in ("list", "Stream") else {}, values={"size": 4 if fits else 5})
                 w = walk(res, F, "blk_gen window", rebind=wnd_rebind)
@@ -586,11 +597,11 @@ def _dispatch(chk, repo, mod, W, wr, bg):
                 if wk == "number":
                     ok = w.end == "raise" and "TypeError" in last
                 elif wk == "None":
-                    ok = w.end == "fall" and not t
+                    ok = w.end == "fall" and set(t) <= {"wnd = None"}
                 elif not fits:
                     ok = w.end == "raise" and "ValueError" in last
                 else:
-                    ok = w.end == "fall" and ("wnd = wnd(size)" in t) == (wk == "callable") and "wnd = list(wnd)" in t
+                    ok = w.end == "fall" and ("wnd = wnd(size)" in t) == (wk in ("callable", "callable container")) and "wnd = list(wnd)" in t
                 chk.decide(ok, "C09.dispatch", W("stft[rfft].wrapper.blk_gen"),
                            "wnd=<%s>%s: %s" % (wk, "" if fits else " of another length", "; ".join(t)[:90] or "left as it is"),
                            why="as in overlap_add, plus ValueError when the window length is not the block size", node=bg)
